@@ -179,11 +179,11 @@ func c11Scenarios(thorough bool) []c11Scenario {
 		keys []int // colliding keys the threads operate on (present and absent)
 	}
 	plans := []basePlan{
-		{0, []int{0, 1, 3, 4}, []int{0, 2, 3}},       // uint {1,2,4,5}, operate on 1, 3(absent), 4
-		{1, []int{0, 1, 2, 5, 6, 7}, []int{3, 4, 5}}, // deep user-key universe: insert 40 (layer 0), 50 (layer 2), touch 60
-		{2, []int{0, 1, 2, 3, 4}, []int{1, 2}},       // evicting cache
-		{3, []int{0, 1, 3}, []int{1, 2}},             // struct keys
-		{0, []int{0, 1, 2, 3, 4}, []int{0, 1, 2}}, // uint {1..5}, height 2: deleting 2 merges the leaves [1] and [3] and the merged leaf stays in the tree
+		{0, []int{0, 1, 3, 4}, []int{0, 2, 3}},          // uint {1,2,4,5}, operate on 1, 3(absent), 4
+		{1, []int{0, 1, 2, 5, 6, 7}, []int{3, 4, 5}},    // deep user-key universe: insert 40 (layer 0), 50 (layer 2), touch 60
+		{2, []int{0, 1, 2, 3, 4}, []int{1, 2}},          // evicting cache
+		{3, []int{0, 1, 3}, []int{1, 2}},                // struct keys
+		{0, []int{0, 1, 2, 3, 4}, []int{0, 1, 2}},       // uint {1..5}, height 2: deleting 2 merges the leaves [1] and [3] and the merged leaf stays in the tree
 		{4, []int{0, 1, 3, 4, 5, 6, 2}, []int{3, 1, 0}}, // bf 4, key 3 inserted last (its leaf's slices grow by append): deleting 4 merges [1 2 3] and [5]
 	}
 	for pi, pl := range plans {
